@@ -1138,4 +1138,39 @@ theorem l2_burn_supply_eq_counterexample :
     (l2Burn wS (.user 1) ⟨"b1/usd", 400⟩).map
       (fun s' => (s'.bank.supplyOf "b1/usd", (getBasket s'.baskets 1).map (·.amount))) = some (1600, some 2000) := by decide
 
+/-! ## the staking-rewards part of the WithdrawSurplus proposal -/
+
+/-- claiming the basket module's staking rewards and forwarding them to the withdraw target touches no basket record and
+leaves the module account's balance of every denomination as it was (what comes in from the fee collector goes out to the
+target): reserves and surplus stay covered. When the fee collector cannot pay, the claim fails and nothing is written. -/
+theorem rewards_pass_through (s s' : St) (i : Nat) (h : claimModuleRewards s (.user i) = some s') (hi : i ≠ 999999) :
+    s'.baskets = s.baskets ∧ s'.bank.supply = s.bank.supply ∧ ∀ d, s'.bank.balOf .module d = s.bank.balOf .module d := by
+  unfold claimModuleRewards at h
+  cases hr : s.modRewards with
+  | nil => rw [hr] at h; cases h; exact ⟨rfl, rfl, fun _ => rfl⟩
+  | cons c cs =>
+    rw [hr] at h
+    simp only at h
+    cases h1 : s.bank.send feeCollector .module (c :: cs) with
+    | none => rw [h1] at h; cases h
+    | some b1 =>
+      rw [h1] at h
+      simp only at h
+      cases h2 : b1.send .module (.user i) (c :: cs) with
+      | none => rw [h2] at h; cases h
+      | some b2 =>
+        rw [h2] at h
+        simp only [Option.some.injEq] at h
+        subst h
+        obtain ⟨_, s1, e1⟩ := send_spec _ _ _ _ _ h1
+        obtain ⟨_, s2, e2⟩ := send_spec _ _ _ _ _ h2
+        refine ⟨rfl, by show b2.supply = _; rw [s2, s1], ?_⟩
+        intro d
+        show b2.balOf .module d = _
+        rw [e2, e1]
+        have hf : (Acct.module = feeCollector) = False := by simp [feeCollector]
+        have hu : (Acct.module = Acct.user i) = False := by simp
+        simp only [hf, hu, if_true, if_false]
+        omega
+
 end Sekai.Props.C11
